@@ -146,6 +146,7 @@ def endEvents (e : String) (k : Nat) : Option (List Label) :=
   if e = "F" then some [.dialFail]
   else if e = "C" then some [.userClose, .dialFail]
   else if e = "L" then some [.dialOk, .apiWrite, .writeOk k, .readOk k, .apiRead, .userClose]
+  else if e = "S" then some [.userClose, .dialOk]   -- Close while a dial is in flight that then succeeds
   else none
 
 /-- play environment events, settling after each; `none` if an event is not enabled -/
